@@ -379,16 +379,28 @@ class C05(Check):
                 if [(e[1], e[2]) for e in stores] != [(f"variables[{k}]", v)] or calls:
                     plain_ok = False
                 continue
-            zero = any(c.replace(" ", "") in (f"variables.update(zip({ISOS},it.repeat(0),strict=False))", f"variables.update(dict.fromkeys({ISOS},0))",
-                                              f"variables.update(dict.fromkeys({ISOS},0.0))", f"variables.update(zip({ISOS},it.repeat(0.0),strict=False))") for c in calls)
-            vs = [e for e in stores if e[2] == v]
-            if not zero or len(vs) != 1 or len(stores) != 1:
-                lab_ok = False
-                continue
-            # the zeroing must come first
+            zeros = (f"zip({ISOS},it.repeat(0),strict=False)", f"dict.fromkeys({ISOS},0)", f"dict.fromkeys({ISOS},0.0)", f"zip({ISOS},it.repeat(0.0),strict=False)",
+                     f"dict(zip({ISOS},it.repeat(0),strict=False))")
+            news = {e[1]: e[2].replace(" ", "") for e in st.events if e[0] == "new"}
             order = [e for e in st.events if e[0] in ("call", "store")]
-            if order.index(vs[0]) < min(i for i, e in enumerate(order) if e[0] == "call" and "variables.update(" in e[1]):
-                lab_ok = False
+            staged = [n_ for n_, t_ in news.items() if t_ in zeros and f"variables.update({n_})" in calls]
+            if staged:
+                # staged: a fresh all-zero dict of the isotopomers receives the amount, then is merged into `variables`
+                d_ = staged[0]
+                vs = [e for e in stores if e[2] == v and e[1].startswith(f"{d_}[")]
+                if len(vs) != 1 or len(stores) != 1 or order.index(vs[0]) > order.index(("call", f"variables.update({d_})")):
+                    lab_ok = False
+                    continue
+                vs = [("store", "variables" + vs[0][1][len(d_):], v)]
+            else:
+                zero = any(c.replace(" ", "") in tuple(f"variables.update({z})" for z in zeros) for c in calls)
+                vs = [e for e in stores if e[2] == v]
+                if not zero or len(vs) != 1 or len(stores) != 1:
+                    lab_ok = False
+                    continue
+                # the zeroing must come first
+                if order.index(vs[0]) < min(i for i, e in enumerate(order) if e[0] == "call" and "variables.update(" in e[1]):
+                    lab_ok = False
             no_request = any(c == f"initial_labels.get({k}) is None" and p_ for c, p_ in st.conds)
             if no_request:
                 seen_default = True
